@@ -11,7 +11,7 @@ func init() {
 // C02 O1: for every event and every single filter, Match == NIP-01 predicate.
 // Assumption (decided by C11): every tag has at least one element.
 func vpH_C02_single() {
-	maxTags, maxElems, maxList, maxKeys := 2, 2, 1, 1
+	maxTags, maxElems, maxList, maxKeys := 2, 2, 1, 2
 	if vpTier() > 0 {
 		maxTags, maxElems, maxList, maxKeys = 3, 2, 2, 2
 	}
